@@ -276,7 +276,7 @@ impl SignedPathSegment {
     #[inline]
     pub fn into_rpc(self) -> scion_protobuf::control_plane::v1::PathSegment {
         scion_protobuf::control_plane::v1::PathSegment {
-            segment_info: self.info.into_rpc().encode_to_vec(),
+            segment_info: self.info.encoded,
             as_entries: self.as_entries.into_iter().map(Into::into).collect(),
         }
     }
@@ -291,8 +291,13 @@ impl SignedPathSegment {
         )
         .map_err(|_| "Failed to decode segment info")?;
 
+        // The AS entries are signed over the segment information exactly as it was transmitted,
+        // not over a re-encoding of its decoded fields.
+        let mut info: SegmentInfo = segment_info.try_into()?;
+        info.encoded = segment.segment_info;
+
         Ok(Self {
-            info: segment_info.try_into()?,
+            info,
             as_entries: segment
                 .as_entries
                 .into_iter()
